@@ -1056,6 +1056,15 @@ impl<'a> GeneratorState<'a> {
         Ok(())
     }
 
+    /// A switch shares the continue label of the loop around it: the loop must emit the label
+    pub(crate) fn mark_continue_label_used(&mut self, label: &str) {
+        for l in self.loops.iter_mut() {
+            if l.0 == label {
+                l.2 = true;
+            }
+        }
+    }
+
     fn generate_continue(&mut self, pos: usize) -> Result<(), Error> {
         let cont_label = match self.loops.last() {
             None => {
@@ -1073,8 +1082,8 @@ impl<'a> GeneratorState<'a> {
                 }
             }
         };
-        self.asm(JMP, &ExprType::Label(cont_label), pos, false)?;
-        self.loops.last_mut().unwrap().2 = true;
+        self.asm(JMP, &ExprType::Label(cont_label.clone()), pos, false)?;
+        self.mark_continue_label_used(&cont_label);
         Ok(())
     }
 
